@@ -117,6 +117,21 @@ def check(label, m, rng):
     dd = np.linalg.det(np.moveaxis(DF, (0, 1), (-2, -1)))
     if not np.allclose(dd, det, rtol=1e-10, atol=1e-14 * scale ** d):
         fails.append("JACOBIAN: detDF is not the determinant of DF")
+    # BUFFER: the values belong to the CONTENTS of the point array: a reused work buffer with new contents gives the values of the new contents
+    try:
+        buf = X.copy()
+        mp.DF(buf), mp.detDF(buf), mp.invDF(buf)
+        buf[:] = ref_points(m, rng, 4)
+        for nm, f in (("DF", mp.DF), ("detDF", mp.detDF), ("invDF", mp.invDF), ("F", mp.F)):
+            if not np.array_equal(f(buf), f(buf.copy())):
+                fails.append("BUFFER: %s of a reused point array with new contents differs from %s of an equal fresh array by %.2e" % (nm, nm, np.max(np.abs(f(buf) - f(buf.copy())))))
+        buf3 = X3.copy()
+        mp.DF(buf3, ), mp.detDF(buf3)
+        buf3[:] = buf[:, None, :]
+        if not np.array_equal(mp.DF(buf3), mp.DF(buf3.copy())) or not np.array_equal(mp.detDF(buf3, ), mp.detDF(buf3.copy())):
+            fails.append("BUFFER: per-cell point array reused with new contents gives stale DF/detDF")
+    except Exception as e:
+        fails.append("BUFFER: raised %s: %s" % (type(e).__name__, str(e)[:100]))
     # FACETMAP + NORMALS + divergence theorem
     if d > 1 and getattr(m, "bndelem", None) is not None:
         name = type(m).__name__
